@@ -62,6 +62,13 @@ structure Quirks where
   execIntoModuleGlobals : Bool := false
   /-- `QlassF.from_function`: `eval(name)` finds the function's own locals first -/
   evalSeesLocals : Bool := false
+  /-- `UnboundQlassf.bind` runs the bound source in the module globals only: the `original_f` of a function
+  bound from `qlassf(src, defs=[...])` does not see the definitions it calls -/
+  bindOrigWithoutDefs : Bool := false
+  /-- `QlassF.from_function` runs a source string in a namespace where the callables of the definitions come
+  after the module globals: a definition named like a type the annotations mention (`Qint`) replaces it and
+  evaluating the annotation raises -/
+  defShadowsAnnotation : Bool := false
   /-- call site: the formal bit an actual bit replaces is recovered from the actual's symbol name -/
   argIndexFromName : Bool := false
   /-- call site: `e.subs(subs, simultaneus=True)` (misspelt keyword) substitutes sequentially -/
@@ -120,6 +127,8 @@ def Quirks.ofList (l : List String) : Quirks :=
     oraclizeRenames := l.contains "oraclizeRenames"
     execIntoModuleGlobals := l.contains "execIntoModuleGlobals"
     evalSeesLocals := l.contains "evalSeesLocals"
+    bindOrigWithoutDefs := l.contains "bindOrigWithoutDefs"
+    defShadowsAnnotation := l.contains "defShadowsAnnotation"
     argIndexFromName := l.contains "argIndexFromName"
     subsSequential := l.contains "subsSequential"
     renameSequential := l.contains "renameSequential"
